@@ -24,6 +24,8 @@ type family struct {
 	Sugar bool  // emit one-sugar variants of each canonical member instead of the member itself
 	Limit int64 // stop after this many raw indices (0 = whole space); reported as a cap
 	Names int   // gen.Grammar.RenameRules scheme
+	// Indirect: emit gen.Grammar.IndirectEmpty of each member (members without @empty are skipped)
+	Indirect bool
 	// Wide: instead of Space, N grammars built from K components each (gen.Wide)
 	Wide *wideFam
 	// per-family bounds (0 = the check's)
@@ -112,6 +114,11 @@ func (fam *family) each(c *mc.Ctx, f func(idx int64, g *gen.Grammar)) {
 		g := fam.Space.Get(i)
 		if g == nil {
 			continue
+		}
+		if fam.Indirect {
+			if g = g.IndirectEmpty(); g == nil {
+				continue
+			}
 		}
 		g.RenameRules(fam.Names)
 		if !fam.Sugar {
@@ -219,6 +226,9 @@ func c01Families(quick bool) c01Params {
 				{Name: "sugar", Space: gen.NewSpace(2, 2, 2, 2, false), Sugar: true, Limit: 6000},
 				{Name: "plain-names", Space: gen.NewSpace(2, 2, 2, 2, false), Names: 1},
 				{Name: "plain3-names", Space: gen.NewSpace(3, 2, 2, 2, false), Limit: 150000, Names: 1},
+				{Name: "plain-indirect", Space: gen.NewSpace(2, 2, 2, 2, false), Indirect: true},
+				{Name: "plain3-indirect", Space: gen.NewSpace(3, 2, 2, 2, false), Limit: 400000, Indirect: true},
+				{Name: "plain-l3-indirect", Space: gen.NewSpace(2, 2, 2, 3, false), Limit: 300000, Indirect: true},
 				{Name: "wide", Wide: &wideFam{K: 5, N: 1200}, L: 3, Lpos: 8, Npos: 150},
 				{Name: "wide-names", Wide: &wideFam{K: 5, N: 400}, L: 3, Lpos: 8, Npos: 150, Names: 1},
 			},
@@ -234,6 +244,9 @@ func c01Families(quick bool) c01Params {
 			{Name: "sugar", Space: gen.NewSpace(2, 2, 2, 2, false), Sugar: true},
 			{Name: "plain-names", Space: gen.NewSpace(2, 2, 2, 2, false), Names: 1},
 			{Name: "plain-t3-names", Space: gen.NewSpace(2, 3, 2, 2, false), Names: 1},
+			{Name: "plain-indirect", Space: gen.NewSpace(2, 2, 2, 2, false), Indirect: true},
+			{Name: "plain3-indirect", Space: gen.NewSpace(3, 2, 2, 2, false), Limit: 3000000, Indirect: true},
+			{Name: "plain-l3-indirect", Space: gen.NewSpace(2, 2, 2, 3, false), Limit: 2000000, Indirect: true},
 			{Name: "wide", Wide: &wideFam{K: 5, N: 20000}, L: 4, Lpos: 9, Npos: 400},
 			{Name: "wide7", Wide: &wideFam{K: 7, N: 10000}, L: 3, Lpos: 9, Npos: 400},
 			{Name: "wide-names", Wide: &wideFam{K: 5, N: 10000}, L: 3, Lpos: 9, Npos: 400, Names: 1},
